@@ -233,6 +233,8 @@ def main(argv):
     for l in lines:
         print(l)
     if new_violations:
+        for p in problems:
+            print('INCONCLUSIVE (part of the run) property=%s reason=%s' % (prop, p))
         return 1
     if problems or evaluations == 0 or distinct < 2:
         for p in problems:
